@@ -285,12 +285,12 @@ func VerifH_ReaderLongVarintHeader() {
 // followed by zeros), filling the offered buffer fully, half, or one byte at a time, and
 // checks the reader's buffer against the memory bound at every Read call.
 type floodReader struct {
-	rd     **Reader
-	hdr    []byte
-	pos    int
-	policy int
-	max    int
-	reads  int
+	rd       **Reader
+	hdr      []byte
+	pos      int
+	policy   int
+	max      int
+	reads    int
 	worstCap int
 }
 
